@@ -86,6 +86,7 @@ type Sched struct {
 	TornNum       int
 	TornDen       int
 	Ambient       int
+	SiteSeeds     map[int]uint32 // per-site permutation seeds (nil: permutations are drawn from Tape)
 	Stall         bool // every timer/deadline the generator sets has already expired (frozen or starved process)
 	// RelPaths: change into the directory above the out dir and hand the generator relative paths
 	// (the way the CLI is normally used), instead of absolute ones.
@@ -139,6 +140,7 @@ func RunInProcess(inv Invocation, inDir, outDir string, s Sched, root string) (r
 		panic(err)
 	}
 	verifhook.ResetRun(s.Tape, s.Active)
+	verifhook.SiteSeeds = s.SiteSeeds
 	verifhook.Clock = baseClock.Add(s.ClockOffset)
 	var events []string
 	verifhook.EventLog = func(e string) { events = append(events, e) }
@@ -212,6 +214,7 @@ func RunDirInProcess(invs []Invocation, names []string, rootDir string, s Sched,
 		}
 	}
 	verifhook.ResetRun(s.Tape, s.Active)
+	verifhook.SiteSeeds = s.SiteSeeds
 	verifhook.Clock = baseClock.Add(s.ClockOffset)
 	simos.PathMap = func(p string) string { return runDirRe.ReplaceAllString(strings.TrimPrefix(p, root), "") }
 	simos.CLIMode = false
@@ -248,7 +251,7 @@ func RunCLI(cli string, inv Invocation, inDir, outDir string, s Sched, tapeVals 
 		panic(err)
 	}
 	p := cliplan.Plan{Tape: tapeVals, AllActive: s.Active == nil, ClockOffsetNs: int64(s.ClockOffset), FaultAt: s.FaultAt, Kind: s.Kind,
-		TornNum: s.TornNum, TornDen: s.TornDen, Log: planFile + ".log", Masked: masked, Ambient: s.Ambient, Stall: s.Stall}
+		TornNum: s.TornNum, TornDen: s.TornDen, Log: planFile + ".log", Masked: masked, Ambient: s.Ambient, Stall: s.Stall, SiteSeeds: s.SiteSeeds}
 	for id := range s.Active {
 		p.Active = append(p.Active, id)
 	}
